@@ -598,7 +598,7 @@ func (e *Engine) sliceOp(fr *frame, x *ssa.Slice, reach string, heap Heap) Val {
 		}
 		// capacity is not modelled: slicing beyond len (within cap) is reported as a possible panic
 		e.panicSite(fr, x, reach, and(app("bvsle", bvLit(0, 64), lo), app("bvsle", lo, hi), app("bvsle", hi, sv.Len)), "slice-bounds")
-		return SliceVal{sv.Arr, e.sc.define("so", SI64, app("bvadd", sv.Off, lo)), e.sc.define("sl", SI64, app("bvsub", hi, lo))}
+		return SliceVal{sv.Arr, e.sc.define("so", SI64, e.sc.addS(sv.Off, lo)), e.sc.define("sl", SI64, e.sc.subS(hi, lo))}
 	case *types.Basic: // string
 		s := e.scalar(base).T
 		hi = app("gs_len", s)
@@ -637,7 +637,7 @@ func (e *Engine) sliceOp(fr *frame, x *ssa.Slice, reach string, heap Heap) Val {
 				j++
 			})
 		}
-		return SliceVal{ref, lo, e.sc.define("sl", SI64, app("bvsub", hi, lo))}
+		return SliceVal{ref, lo, e.sc.define("sl", SI64, e.sc.subS(hi, lo))}
 	}
 	fail("Slice on %s", x.X.Type())
 	return nil
